@@ -317,3 +317,7 @@ also('C18', 'no public constructor hands out the array of an unfrozen memoised h
 also('C20', 'an eigenvector taken from eigh / eigsh is a column `[:, k]`, never a row (EV1: numerical-range points attain the support function); a default-float buffer '
             'never receives whole items of a sequence derived from the (possibly complex) input (DT4); an if/elif dispatch on an asserted enumeration (method, kind, key) '
             'covers every admitted literal (EX1, 3 chains).')
+
+for _p in sorted(CLAIMS):
+    also(_p, 'no function outside the reviewed set of 24 memoised functions is decorated with lru_cache / cache (or keeps a module-level memo) while returning an unfrozen '
+             'NumPy / torch object (MC3: no new shared mutable result in the modules of this property; package-wide in the thorough tier).')
